@@ -9,6 +9,11 @@ built on the same synthetic table: well-formed (format of src/xrayfiles.c:590-62
 ground-state occupations of the shells that have an edge in data/edges.dat), **not physical**.  Nothing is
 claimed about the values; only Java == C on equal tables.
 
+The low-energy end of a sub-shell table exercises every branch of the edge-to-first-knot extension of CSb_Photo_Partial
+(src/kissel_pe.c:134-153; property C02): by (Z + shell) mod 4 the table starts AT the edge (no gap, class 0) or at
+1.3 x edge with a first-interval slope d ln(sigma)/d ln(E) of +1.6 (class 1: above 1, limited to 1), of -0.4 or +0.4
+(class 2: inside [-1, 1], used as it is) or of about -2.9 (class 3: below -1, limited to -1).
+
 usage: synth_kissel.py <edges: lines "Z shell E"> <out file>   (edges come from the C driver's EdgeEnergy)"""
 import sys, math
 
@@ -29,12 +34,20 @@ def natural_spline_y2(x, y):
         y2[k] = y2[k] * y2[k + 1] + u[k]
     return y2
 
-def table(e_lo, zeff, shell, n=24, e_hi=1200.0):
-    """ln E -> ln sigma (barn per electron) from the edge to e_hi"""
+GAP = 1.3          # first knot at GAP x edge for the classes 1..3
+
+def slope_class(Z, shell):
+    """which branch of the extension the sub-shell table of (Z, shell) exercises: 0 no gap, 1 slope > 1, 2 |slope| <= 1, 3 slope < -1"""
+    return (Z + shell) % 4
+
+def table(e_lo, zeff, shell, n=24, e_hi=1200.0, first_slope=None):
+    """ln E -> ln sigma (barn per electron) from e_lo to e_hi; `first_slope`: slope of the first knot interval (None: as it falls)"""
     x0 = math.log(e_lo); x1 = math.log(e_hi)
     xs = [x0 + (x1 - x0) * i / (n - 1) for i in range(n)]
     a = math.log(30.0 * zeff ** 2 / (1 + shell))          # magnitude at the edge
     ys = [a - 2.9 * (x - x0) - 0.03 * (x - x0) ** 2 for x in xs]
+    if first_slope is not None:
+        ys[0] = ys[1] - first_slope * (xs[1] - xs[0])
     return xs, ys, natural_spline_y2(xs, ys)
 
 def main():
@@ -60,7 +73,9 @@ def main():
             e = edges.get((Z, s), 0.0) if s < SHELLNUM else 0.0
             if occ[s] <= 0 or e <= 0:
                 out.append('0'); continue
-            xs, ys, y2 = table(e, Z, s)
+            c = slope_class(Z, s)
+            if c == 0: xs, ys, y2 = table(e, Z, s)
+            else: xs, ys, y2 = table(GAP * e, Z, s, first_slope={1: 1.6, 2: (-0.4 if Z % 2 else 0.4), 3: None}[c])
             out.append('%d' % len(xs))
             out.append('%.10E' % e)
             for x, y, d in zip(xs, ys, y2): out.append('%.10E %.10E %.10E' % (x, y, d))
